@@ -55,6 +55,10 @@ CLAIMS = {
   "Cmp/Equals order laws (reflexivity, antisymmetry, transitivity, totality, consistency of Equals with Cmp==0) are lemmas over the real Cmp body unfolded for scalar operands: integers as 64-bit vectors, floats as IEEE doubles including NaN and ±0, strings, booleans, nil. "
   "The int↔float mixed comparison is not transitive beyond 2^53: recorded as a known finding with the solver's witness. Container comparison (element-wise recursion) is covered by a bounded stand-in.",
   "Assumed: string comparison axioms (strcmp) in the prelude; container Cmp recursion bounded."),
+ "C13": ("proof",
+  "Structural core decided on SSA over the whole repository, for every input: syntax trees are immutable after construction. No function stores into a field of a syntax-tree node or into an element of a []ast.Node block that it did not allocate in the same activation, except DefineMacros (which removes definitions from the program it is given); ast.Modify/ModifyNoOk are therefore copying rewriters (the class of the sharing bug of issue #223), macro objects are written only at creation, and quoteArgs calls nothing. "
+  "This gives: a definition is not altered by its uses, call sites expand independently, arguments are not evaluated during expansion. That the expanded tree is exactly the hand-substituted one is a relation over all templates and is covered by a bounded stand-in (14 templates x 10 argument tuples x 5 contexts, printed, re-parsed and evaluated), labelled bounded.",
+  "The structural clauses are audits on the real code's SSA (no SMT obligations); freshness is syntactic per activation. Bounded stand-in is not a proof."),
  "C15": ("proof",
   "Lexer level, decided for every input: the two modes differ only in the end marker. The field Lexer.lineMode is read by exactly one function (EOLEOF, contract proved: EOL in line mode, EOF otherwise), written only by the constructor on the object it allocates, and EOLEOF's result flows only into NextToken's return value (three SSA audit clauses); with NextToken's C16 contract this makes every non-end token and every lexer position the same function of (input, position) in both modes. "
   "The parser (prefix/infix function-value tables) is outside govc's subset, so 'same tree', 'asks for more input' and the statement-by-statement session equivalence are covered by a bounded stand-in over the repository's examples, tests and generated programs (every token-boundary prefix), labelled bounded. One genuine deviation is recorded as a known finding.",
@@ -82,7 +86,6 @@ CLAIMS = {
 NOT_APPLICABLE = {
  "C02": "print-then-parse identity is a correctness statement about the Pratt parser composed with the printer: the parser dispatches through maps of function values (outside govc's subset: such a call havocs everything) and the statement needs an induction over the grammar relating two recursive algorithms; no per-function contract within reach expresses it, and deciding it by generating programs and comparing trees would be testing, a different technique (DESIGN.md 8.2)",
  "C03": "the formatting fixpoint and its determinism are statements about printer o parser o printer over all accepted texts; same obstacle as C02 (parser outside the verifier's subset, whole-algorithm induction); only the trivial clause 'output ends with one newline' is per-function and it needs a ghost model of the io.Writer contents that was not built (DESIGN.md 8.2)",
- "C13": "macro expansion equals syntactic substitution is a relation between the expanded tree and a hand-substituted tree over all templates; the part within contract reach (ast.Modify is a copying rewriter: it never writes syntax-tree memory that existed before the call) was scoped but not completed - callbacks passed as function parameters and a frame clause over all ast node types are not yet supported by govc - and a bounded-only check would be testing (DESIGN.md 8.6)",
  "C14": "save-then-load reproduces the state is an end-to-end statement through printer, parser and evaluator (value equality and behavioural equality of reloaded functions); the per-function clauses within reach (SaveGlobals skips over-long values instead of truncating, one line per binding) need a model of the bytes written through fmt.Fprintf to an io.Writer that was not built; a bounded-only check would be testing (DESIGN.md 8.6)",
 }
 
